@@ -3,6 +3,7 @@ module filippo.io/age/verifh
 go 1.19
 
 require (
+	c2sp.org/CCTV/age v0.0.0-20240306222714-3ec4d716e805
 	filippo.io/age v0.0.0
 	filippo.io/edwards25519 v1.1.0
 	golang.org/x/crypto v0.24.0
